@@ -18,16 +18,11 @@ Init == s = ED!Start /\ lastev = [e |-> "none", a |-> 0, b |-> 0]
 Next == \E ev \in Events : LET t == ED!Step(s, ev) IN t # ED!Reject /\ s' = t /\ lastev' = ev
 Spec == Init /\ [][Next]_<<s, lastev>>
 Done == s.pc = "done"
-Exhausted == s.level = MaxMpf + 1 /\ ~s.certified
-\* Before the ladder is exhausted OPTIMAL / INFEASIBLE leave the driver only straight after a passing exact test.
-\* (TLC shows that the ladder-exhausted exit CAN carry an uncertified OPTIMAL/INFEASIBLE left in *status by the
-\*  rational basis check or by a float solve whose test could not be run - a named deviation of the design; the
-\*  trace specification flags any real execution that returns OPTIMAL/INFEASIBLE uncertified.)
-OptimalOnlyAfterTest    == Done /\ lastev.a = 1 /\ lastev.b = 0 /\ ~Exhausted => s.certified
-InfeasibleOnlyAfterTest == Done /\ lastev.a = 2 /\ lastev.b = 0 /\ ~Exhausted => s.certified
-\* the strict versions (violated by design, kept to document the counterexample; see MC_ExactDriver_strict.cfg)
-StrictOptimal    == Done /\ lastev.a = 1 /\ lastev.b = 0 => s.certified
-StrictInfeasible == Done /\ lastev.a = 2 /\ lastev.b = 0 => s.certified
+\* OPTIMAL / INFEASIBLE leave the driver only straight after a passing exact test.
+\* (Before the repair "fix: QSexact_solver does not report an uncertified OPTIMAL/INFEASIBLE ..." TLC found the
+\*  counterexample: the ladder-exhausted exit carried an uncertified verdict of the rational basis check.)
+OptimalOnlyAfterTest    == Done /\ lastev.a = 1 /\ lastev.b = 0 => s.certified
+InfeasibleOnlyAfterTest == Done /\ lastev.a = 2 /\ lastev.b = 0 => s.certified
 \* UNBOUNDED and the non-definitive statuses leave only through ladder exhaustion
 OthersOnlyAtExhaustion == Done /\ lastev.b = 0 /\ lastev.a \notin {1, 2} => s.level = MaxMpf + 1
 LadderBounded == s.level <= MaxMpf + 1
